@@ -116,6 +116,10 @@ pub enum Op {
     CloneFromSlice(i8),
     CloneFromToodee(i8),
     DropHeld,
+    /// (C05 only) run `op` with the k-th call into the element type's Clone / Default / Drop /
+    /// comparison panicking: which elements survive is unspecified (C11), but nothing may be
+    /// dropped twice or stay reachable after it was dropped; the model is re-read afterwards
+    Faulted { op: Box<Op>, k: u8 },
 }
 
 #[derive(Serialize, Deserialize, Clone, Debug, PartialEq)]
@@ -651,6 +655,42 @@ impl<'c, E: Elem + Clone + Default + Ord> Eng<'c, E> {
         let (c, r) = self.m.size();
         let empty = self.m.is_empty();
         let shape_mode = self.mode == Mode::Shape;
+        if let Op::Faulted { op: inner, k } = op {
+            if shape_mode || matches!(**inner, Op::Faulted { .. }) || self.valid_only && false {
+                // C01 does not cover panics in caller code: run the plain operation
+                return if matches!(**inner, Op::Faulted { .. }) { Ok(()) } else { self.apply(inner, keyctr) };
+            }
+            elem::arm(Some(*k as u64));
+            // the fuse may also blow while the *harness* drops elements (e.g. when it replaces
+            // the array), outside the operation's own catch: contain that as well
+            let res = match catch(|| self.apply(inner, keyctr)) {
+                Ok(v) => v,
+                Err(msg) => {
+                    if elem::fired() {
+                        Ok(())
+                    } else {
+                        elem::disarm();
+                        fail!("unexpected-panic", "panic escaped while applying {:?}: {}", inner, msg);
+                    }
+                }
+            };
+            let fired = elem::fired();
+            elem::disarm();
+            if fired {
+                self.ctx.class("caller-code-fault-fired");
+                self.any_panic = true;
+                // unspecified outcome: re-read the model (or leave the rest to C11 if the shape broke)
+                let t = &self.t;
+                let (c2, r2) = (t.num_cols(), t.num_rows());
+                if c2.checked_mul(r2) == Some(t.data().len()) && (c2 == 0) == (r2 == 0) {
+                    self.m = Model::from_flat(c2, r2, &ids_of(t));
+                } else {
+                    self.diverged = true;
+                }
+                return Ok(());
+            }
+            return res;
+        }
         match op {
             Op::InsertRow { .. } | Op::PushRow { .. } => {
                 let (at, len, src) = match op {
@@ -1082,6 +1122,7 @@ impl<'c, E: Elem + Clone + Default + Ord> Eng<'c, E> {
             Op::DropHeld => {
                 self.held.clear();
             }
+            Op::Faulted { .. } => unreachable!(),
         }
         Ok(())
     }
@@ -1127,6 +1168,7 @@ fn op_name(op: &Op) -> &'static str {
         Op::CloneFromSlice(_) => "clone_from_slice",
         Op::CloneFromToodee(_) => "clone_from_toodee",
         Op::DropHeld => "drop_held",
+        Op::Faulted { op, .. } => op_name(op),
     }
 }
 
@@ -1245,6 +1287,10 @@ pub fn sanitize(h: &mut History) -> bool {
     }
     ctor(&mut h.ctor);
     for op in h.ops.iter_mut() {
+        let op = match op {
+            Op::Faulted { op: inner, .. } => &mut **inner,
+            other => other,
+        };
         match op {
             Op::Rebuild(c) => ctor(c),
             Op::RemoveRow { script, .. } | Op::RemoveCol { script, .. } | Op::PopRow { script } | Op::PopCol { script } => script.truncate(12),
@@ -1351,7 +1397,8 @@ pub fn op() -> impl Strategy<Value = Op> {
     ]
 }
 
-pub fn history(elems: &'static [(u32, ElemKind)], valid_only_p: f64, max_ops: usize) -> impl Strategy<Value = History> {
+pub fn history(elems: &'static [(u32, ElemKind)], valid_only_p: f64, max_ops: usize, fault_p: f64) -> impl Strategy<Value = History> {
     let elem = proptest::sample::select(elems.iter().flat_map(|(w, k)| std::iter::repeat(*k).take(*w as usize)).collect::<Vec<_>>());
-    (elem, prop::bool::weighted(valid_only_p), ctor(6), prop::collection::vec(op(), 0..max_ops)).prop_map(|(elem, valid_only, ctor, ops)| History { elem, valid_only, ctor, ops })
+    let one = (op(), prop::bool::weighted(fault_p), 0u8..12).prop_map(|(op, f, k)| if f { Op::Faulted { op: Box::new(op), k } } else { op });
+    (elem, prop::bool::weighted(valid_only_p), ctor(6), prop::collection::vec(one, 0..max_ops)).prop_map(|(elem, valid_only, ctor, ops)| History { elem, valid_only, ctor, ops })
 }
